@@ -167,7 +167,9 @@ fn get_payload_field(message: &Component, length: u16, buffer_offset: u32) -> Rd
     let start = (buffer_offset as usize).checked_sub(offset).ok_or(
         Error::RdpError(RdpError::new(RdpErrorKind::InvalidSize, "NTLM: buffer offset points into the message header"))
     )?;
-    let end = start + length as usize;
+    let end = start.checked_add(length as usize).ok_or(
+        Error::RdpError(RdpError::new(RdpErrorKind::InvalidSize, "NTLM: buffer is outside of the message payload"))
+    )?;
     payload.get(start..end).ok_or(Error::RdpError(RdpError::new(RdpErrorKind::InvalidSize, "NTLM: buffer is outside of the message payload")))
 }
 
